@@ -14,7 +14,7 @@ def observe(h):
                               if n[0] not in ("STARTING_EVENT", "START_EVENT", "STOPPING_EVENT", "STOP_EVENT")],
             "notifications_without_time_changed": [(n[0], None if n[1] is None else float(n[1]).hex()) for n in h.nlog
                                                    if n[0] in ("START_REPLICATION_EVENT", "WARMUP_EVENT", "END_REPLICATION_EVENT")],
-            "timeline": [r for r in h.timeline if r[0] in ("l", "d", "u")],
+            "timeline": [r for r in h.timeline if r[0] in ("l", "d", "u", "sl")],
             "stats": {k: stat_getters(st) for k, st in sorted(h.stats.items())},
             "clock": float(h.sim.simulator_time).hex(), "state": h.sim.run_state.name}
 
